@@ -50,20 +50,28 @@ theorem grow_exact {cfg : Config} (hv : cfg.valid) (h : cfg.initial < 2 ^ 53) (k
 
 theorem backoffVals_ge {cfg : Config} {cur factor : Nat} (h : ¬ cur < cfg.max) :
     backoffVals cfg cur factor = (cur, factor, false) := by
-  simp [backoffVals, h]
+  simp [backoffVals_def, h]
 
 theorem backoffVals_lt {cfg : Config} {cur factor : Nat} (h : cur < cfg.max) :
     backoffVals cfg cur factor =
       if factor * 2 < int64Lim ∧ f64OfNat cfg.initial * (factor * 2) < int64Lim then
         (min cfg.max (f64OfNat cfg.initial * (factor * 2)), factor * 2, false)
-      else (cfg.max, factor * 2, true) := by
-  simp only [backoffVals, h, if_true]
-  split
-  · congr 1
+      else (min cfg.max (f64OfNat cfg.initial * (factor * 2)), factor * 2, true) := by
+  rw [backoffVals_def]
+  simp only [h, if_true]
+  have hmin : (if cfg.max < f64OfNat cfg.initial * (factor * 2) then cfg.max
+      else f64OfNat cfg.initial * (factor * 2)) = min cfg.max (f64OfNat cfg.initial * (factor * 2)) := by
     split
     · next hlt => exact (Nat.min_eq_left (Nat.le_of_lt hlt)).symm
     · next hge => exact (Nat.min_eq_right (Nat.le_of_not_lt hge)).symm
-  · rfl
+  rw [hmin]
+  by_cases hr : factor * 2 < int64Lim ∧ f64OfNat cfg.initial * (factor * 2) < int64Lim
+  · have h1 : ¬ int64Lim ≤ factor * 2 := by omega
+    have h2 : ¬ int64Lim ≤ f64OfNat cfg.initial * (factor * 2) := by omega
+    simp [hr, h1, h2]
+  · have : int64Lim ≤ factor * 2 ∨ int64Lim ≤ f64OfNat cfg.initial * (factor * 2) := by omega
+    simp only [hr, if_false]
+    rcases this with h1 | h1 <;> simp [h1]
 
 /-- Window invariant: while the arithmetic has stayed in range, `currentDur` is the documented
 window length for the number of extensions, and `backoffFactor = 2^k` while still growing. -/
@@ -71,7 +79,7 @@ def WInv (cfg : Config) (s : State) : Prop :=
   s.ovf = false → s.cur = grow cfg s.wk ∧ (s.cur < cfg.max → s.factor = 2 ^ s.wk)
 
 theorem winv_init (cfg : Config) : WInv cfg (init cfg) := by
-  intro _; simp [init, grow]
+  intro _; simp [init_def, grow]
 
 theorem grow_succ_of_ge {cfg : Config} (k : Nat) (h : cfg.max ≤ grow cfg k) :
     grow cfg (k + 1) = cfg.max := by
@@ -143,11 +151,11 @@ theorem winv_step {cfg : Config} (hv : cfg.valid) {s s' : State} (l : Label)
     simp only [step] at hst
     split at hst
     · split at hst
-      · cases hst; intro _; simp [handleTimer, grow]
+      · cases hst; intro _; simp [handleTimer_def, grow]
       · cases hst
     · cases hst
   | add =>
-    simp only [step] at hst
+    rw [step_add_def] at hst
     split at hst <;> cases hst <;> simpa [WInv] using hw
   | close => simp only [step] at hst; cases hst; simpa [WInv] using hw
   | cancel => simp only [step] at hst; cases hst; simpa [WInv] using hw
@@ -217,11 +225,11 @@ theorem ovf_step_of_noovf {cfg : Config} (hv : cfg.valid) (hn : NoOvf cfg) {s s'
     split at hst
     · split at hst
       · cases hst
-        simp [handleTimer, ho]
+        simp [handleTimer_def, ho]
       · cases hst
     · cases hst
   | add =>
-    simp only [step] at hst
+    rw [step_add_def] at hst
     split at hst <;> cases hst <;> simpa using ho
   | close => simp only [step] at hst; cases hst; simpa using ho
   | cancel => simp only [step] at hst; cases hst; simpa using ho
